@@ -397,7 +397,7 @@ func (fr *Frame) load(addr ssa.Value, ty types.Type, st *State, alive *Term, in 
 				return App("omKey", SStr, m, pos)
 			case "Value":
 				v := fr.vc.define("elval", App("omVal", SVal, m, pos))
-				fr.vc.assume(Implies(App("isTable", SBool, App("elMap", SInt, base)), App("tableVal", SBool, v)))
+				fr.vc.assume(Implies(App("isTable", SBool, App("elMap", SInt, base)), And(App("tableVal", SBool, v), App("TE", SBool, App("omKey", SStr, m, pos), v)))) // entries of operator tables are table facts
 				fr.vc.assume(Implies(And(Not(App("isTable", SBool, App("elMap", SInt, base))), tester("VMap", v)), Not(App("isTable", SBool, mk("mv", SInt, v)))))
 				fr.vc.assume(Implies(tester("VMap", v), Lt(App("hgtM", SInt, mk("mv", SInt, v)), App("hgtM", SInt, App("elMap", SInt, base))))) // A-TREE
 				return v
@@ -424,6 +424,7 @@ func (fr *Frame) load(addr ssa.Value, ty types.Type, st *State, alive *Term, in 
 	}
 	if isOMStruct(ty) {
 		// struct copy of an ordered map: a snapshot of its abstract state
+		fr.vc.assume(Implies(App("isTable", SBool, p), App("TableState", SBool, Select(st.Get(g, "Mem:OMap"), p))))
 		return App("opqOfOM", SOpq, Select(st.Get(g, "Mem:OMap"), p))
 	}
 	switch u := ty.Underlying().(type) {
